@@ -32,7 +32,7 @@ fn meta() -> Meta {
     Meta {
         id: "C01",
         level: "model_checking",
-        rule: "every word over {W(len in 1,5,N-1,N,N+1,3N+10), R=trigger_rotation, F=flush, T=clock+1s} up to the depth bound, for every configuration (naming x criterion x sync write mode; plus line ending x file-name shape at depth 2); non-trivial = the word contains a write and the run produced at least two files; distinct = distinct (configuration, word)",
+        rule: "every word over {W(len in 1,5,N-1,N,N+1,3N+10), R=trigger_rotation, F=flush, T=clock+1s} up to the depth bound, for every configuration (naming x criterion x sync write mode; plus line ending x file-name shape at depth 2); non-trivial = the word contains a write and the run produced at least two files; distinct = distinct (configuration, word); plus four configurations with a custom timestamp format coarser than the rotation rhythm; the 5-byte record's own text ends with the configured line ending",
         assumptions: vec![
             "size limit N=20, buffer capacities 16 and 64, Age::Second, Cleanup::Never".into(),
             "single logging thread; flusher thread of BufferAndFlush parked (its effect is the F operation)".into(),
